@@ -201,13 +201,14 @@ func (p *Program) HarnessDoc(fn *ssa.Function) map[string]string {
 
 var _ = filepath.Join
 
-// inHarnessPkg reports whether ins is located in a source file of the harness package's directory
-// (those files are instrumented for native schedule replay).
+// inHarnessPkg reports whether ins is located in a non-test source file of the repository (the harness package, harness
+// overlay files, or any other package of the module): those files are instrumented for native schedule replay, the
+// harness package directly and the others through hook variables (see cmd/sv/instrument.go).
 func (p *Program) inHarnessPkg(ins ssa.Instruction) bool {
 	if ins == nil || ins.Pos() == token.NoPos {
 		// verifGo is called from harness code: its call instruction has a position; anything without one is not instrumented
 		return false
 	}
 	file := p.Fset.Position(ins.Pos()).Filename
-	return filepath.Dir(file) == p.PkgDir
+	return strings.HasPrefix(file, p.RepoDir+string(filepath.Separator)) && !strings.HasSuffix(file, "_test.go")
 }
